@@ -951,6 +951,47 @@ func genE2EParentChain(r *rand.Rand) e2eCase {
 	return c
 }
 
+// genE2EFilterExposed: a vulnerability the options HIDE in the original graph (dev-only with DevDeps off, or deeper than MaxDepth)
+// that the patch of another package EXPOSES (the patched version reaches the vulnerable package through a production dependency,
+// or one edge closer).  It is not among the reported vulnerabilities, so the patch must list it as introduced: a fresh analysis of
+// the written manifest with the same options finds it.
+func genE2EFilterExposed(r *rand.Rand) e2eCase {
+	c := e2eCase{Eco: "n", Table: e2eNpmVers, MaxUpgrades: []int{1, 0}[r.Intn(2)], NoIntroduce: false, DevDeps: true, MaxDepth: -1, Levels: map[string]int{}}
+	top, mid, deep, tool := "top", "mid", "deep", "devtool"
+	if r.Intn(2) == 0 {
+		c.Eco, c.Table = "m", e2eMvnVers
+		top, mid, deep, tool = "g:top", "g:mid", "g:deep", "g:devtool"
+	}
+	req := func(v string) string {
+		if c.Eco == "m" {
+			return v
+		}
+		return "^" + v
+	}
+	v1, v2 := c.Table[0], c.Table[3] // 1.0.0 and 2.0.0
+	c.Pkgs = []remx.Pkg{{Name: deep, Versions: []string{v1}}}
+	c.Vulns = []remx.VulnSpec{
+		{ID: vid(1), Pkg: top, Introduced: -1, Fixed: 3, Last: -1},  // top < 2.0.0: what the patch is for
+		{ID: vid(2), Pkg: deep, Introduced: -1, Fixed: -1, Last: -1}, // deep: never fixed, hidden at first
+	}
+	if r.Intn(2) == 0 {
+		// dev-only: deep comes through a dev dependency only, until top 2.0.0 requires it as well
+		c.DevDeps = false
+		c.Pkgs = append(c.Pkgs,
+			remx.Pkg{Name: top, Versions: []string{v1, v2}, Deps: map[string][]string{v2: {deep + "@" + req(v1)}}},
+			remx.Pkg{Name: tool, Versions: []string{v1}, Deps: map[string][]string{v1: {deep + "@" + req(v1)}}})
+		c.Root = []rootDep{{Name: top, Req: req(v1)}, {Name: tool, Req: req(v1), Dev: true}}
+	} else {
+		// too deep: top 1.0.0 -> mid -> deep is three edges, top 2.0.0 -> deep two; MaxDepth 2
+		c.MaxDepth = 2
+		c.Pkgs = append(c.Pkgs,
+			remx.Pkg{Name: mid, Versions: []string{v1}, Deps: map[string][]string{v1: {deep + "@" + req(v1)}}},
+			remx.Pkg{Name: top, Versions: []string{v1, v2}, Deps: map[string][]string{v1: {mid + "@" + req(v1)}, v2: {deep + "@" + req(v1)}}})
+		c.Root = []rootDep{{Name: top, Req: req(v1)}}
+	}
+	return c
+}
+
 func genE2E(r *rand.Rand) e2eCase {
 	switch r.Intn(8) {
 	case 0, 1:
@@ -961,6 +1002,10 @@ func genE2E(r *rand.Rand) e2eCase {
 		return genE2EVersionProperty(r)
 	case 4:
 		return genE2EParentChain(r)
+	case 5:
+		if r.Intn(3) == 0 {
+			return genE2EFilterExposed(r)
+		}
 	}
 	c := e2eCase{Eco: "n", Table: e2eNpmVers, MaxUpgrades: []int{1, 1, 1, 0, 2}[r.Intn(5)], NoIntroduce: r.Intn(4) == 0, DevDeps: r.Intn(4) != 0, MaxDepth: []int{-1, -1, 1, 2}[r.Intn(4)], Levels: map[string]int{}}
 	names := []string{"alpha", "socket.io", "@scope/beta", "tee"}
